@@ -265,3 +265,8 @@ def run_case(case):
     probes = {"accepted_mutated_frame": accepted_mutated, "corrupt_deliveries": delivered_corrupt,
               "outcome:" + outcome: 1}
     return C.package(world, case, violations, sig, delivered_corrupt > 0, probes)
+
+
+def evidence_extra(tier):
+    return {"systematic_cases": len(_space(tier)), "seeded_cases": N_RANDOM[tier],
+            "systematic_part": "every truncation and every single-bit flip of the conforming answer of %d representative commands" % len(REPR[tier])}
